@@ -12,19 +12,19 @@ CHECKS = {
  "C02": ("exploration", "property-based testing (rapid) with differential oracle: independent reference decoder + liblzma judge every emitted stream; validity predicates over the parsed layout",
          "Every stream the C01 generator makes the writer emit is parsed by an independent strict .xz/LZMA2/LZMA implementation and by liblzma; header/footer/index/padding/check/dictionary-size/chunk-limit/block-size predicates are evaluated on the parsed layout.",
          "trusts the reference implementation (cross-validated against liblzma and xz-utils in setup) and liblzma 5.4.1", "DESIGN.md#c02"),
- "C03": ("exploration", "property-based testing (rapid): specification-driven generator of operation lists, chunk layouts and container layouts, liblzma-encoded streams and a frozen xz-utils corpus; construction/differential oracle",
+ "C03": ("exploration", "property-based testing (rapid): specification-driven generator of operation lists, chunk layouts and container layouts, liblzma-encoded streams and a frozen xz-utils corpus; construction/differential oracle; thorough tier adds native coverage-guided fuzzing over a decision tape that owns every choice of the stream generator (same oracle), and every tier replays the saved fuzz corpus",
          "Streams whose plaintext is known by construction (operation lists applied to the generator's own history) or from a foreign encoder are decoded by the library under several ReaderConfig.DictCap values; result must equal the constructed bytes.",
          "trusts the reference encoder (validated against liblzma / xz-utils decoders); declared dictionaries bounded at 64 MiB", "DESIGN.md#c03"),
  "C04": ("fault_enumeration", "fault enumeration driven by rapid: per generated stream every single-bit flip, every byte insertion/deletion, drawn bursts, and structural field edits with re-sealed CRC32; oracle = never clean EOF with different content / listed inconsistencies must error",
          "Exhaustive single-fault enumeration per generated stream (bit flips, insert/delete at every offset) plus a structural mutator that re-seals header CRCs so only the targeted cross-check can object.",
          "CRC32/CRC64 collisions on payload flips (2^-32) ignored; trusts the reference parser's layout", "DESIGN.md#c04"),
- "C05": ("fault_enumeration", "fault enumeration driven by rapid: every cut position of generated .xz / LZMA2 / .lzma streams; oracle = error other than EOF and delivered bytes are a prefix",
+ "C05": ("fault_enumeration", "fault enumeration driven by rapid: every cut position of generated .xz / LZMA2 / .lzma streams; oracle = error other than EOF and delivered bytes are a prefix; thorough tier adds native coverage-guided fuzzing over a decision tape that owns every choice of the stream generator (same oracle), and every tier replays the saved fuzz corpus",
          "Every proper prefix (exhaustive per stream; boundary-focused for large streams) of library-, reference- and liblzma-written streams is decoded; a clean end of stream or non-prefix output is a violation.",
          "multi-stream cuts at stream / 4-byte padding boundaries are expected to decode cleanly", "DESIGN.md#c05"),
  "C06": ("exploration", "property-based testing (rapid): classic LZMA writer configurations x data x partitions; round-trip oracle and explicit-size contract model",
          "Generated configurations over all 225 property codes, termination modes, sinks with and without WriteByte; round trip through the library reader; a model of the size contract predicts which Write/Close calls must fail.",
          "BinaryTree inputs bounded by a work budget", "DESIGN.md#c06"),
- "C07": ("exploration", "property-based testing (rapid), differential both ways: library output judged by the reference decoder and liblzma; reference-generated and liblzma-encoded streams decoded by the library",
+ "C07": ("exploration", "property-based testing (rapid), differential both ways: library output judged by the reference decoder and liblzma; reference-generated and liblzma-encoded streams decoded by the library; thorough tier adds native coverage-guided fuzzing over a decision tape that owns every choice of the stream generator (same oracle), and every tier replays the saved fuzz corpus",
          "Writer side: header fields and stream judged by independent decoders. Reader side: arbitrary legal operation lists in all termination modes and any lc/lp/pb, plus liblzma encodings.",
          "lc+lp>4 streams are judged by the reference implementation only (liblzma refuses them)", "DESIGN.md#c07"),
  "C08": ("exploration", "stateful property-based testing (rapid state machine) over Write/Flush/Close histories with a model of accepted bytes; prefix-decodability oracle via reference decoder, Reader2 and liblzma",
@@ -42,7 +42,7 @@ CHECKS = {
  "C12": ("exploration", "property-based testing (rapid): generated lists of valid streams with paddings / garbage; model oracle for concatenation and SingleStream",
          "A small model predicts the outcome for every arrangement of streams, padding lengths 0..16, leading padding, trailing bytes and SingleStream.",
          "streams come from the library, the reference encoder, liblzma and the frozen corpus", "DESIGN.md#c12"),
- "C13": ("exploration", "property-based testing (rapid) over read-size schedules and source fragmentations; metamorphic oracle (result independent of schedule) plus sticky-EOF invariant",
+ "C13": ("exploration", "property-based testing (rapid) over read-size schedules and source fragmentations; metamorphic oracle (result independent of schedule) plus sticky-EOF invariant; thorough tier adds native coverage-guided fuzzing over a decision tape that owns every choice of the stream generator (same oracle), and every tier replays the saved fuzz corpus",
          "Generated schedules of Read lengths including 0 and 1 and fragmenting sources over multi-block / multi-chunk / multi-stream inputs of all three formats.",
          "sources returning (0,nil) are not generated", "DESIGN.md#c13"),
  "C14": ("exploration", "randomised concurrent schedules under the Go race detector with drawn GOMAXPROCS and yield points; differential oracle against the sequential run; determinism check",
@@ -51,7 +51,7 @@ CHECKS = {
  "C15": ("exploration", "model-based property testing (rapid) of the gxz command line: generated directories and argument vectors; executable model of the documented semantics; interoperability with xz-utils",
          "Generated invocations of the real binary compared with a model derived from the usage text and the property statement; content relations checked with reference decoder and xz-utils.",
          "suffix/content disagreements assert only safety invariants", "DESIGN.md#c15"),
- "C16": ("exploration", "exhaustive enumeration of chunk-kind sequences up to a bound and of all 256 control bytes, each realised as a concrete stream; oracle = independent chunk-state automaton and constructed plaintext; writer outputs parsed for limits",
+ "C16": ("exploration", "exhaustive enumeration of chunk-kind sequences up to a bound and of all 256 control bytes, each realised as a concrete stream; oracle = independent chunk-state automaton and constructed plaintext; writer outputs parsed for limits; thorough tier adds native coverage-guided fuzzing over a decision tape that owns every choice of the stream generator (same oracle), and every tier replays the saved fuzz corpus",
          "All sequences over the seven chunk kinds up to length L (quick 5, thorough 7) with and without end chunk; the reader must accept exactly the legal ones and fail at the offending chunk.",
          "LZMA chunks carry 1-3 bytes each", "DESIGN.md#c16"),
  "C17": ("exploration", "property-based testing (rapid) of the size inequalities over runs, X||X and random data across configurations and both match finders",
